@@ -28,6 +28,18 @@ Theorem C14_dir_run_exact : forall q recursive abs rel t S,
 Proof. exact run_dir_exact. Qed.
 Print Assumptions C14_dir_run_exact.
 
+(* 2b. lint_directory_parallel / --parallel: the same set, recursive or not. *)
+Theorem C14_parallel_dir_run_exact : forall q recursive abs rel t S,
+  flags_off q -> rel_ok rel = true -> target_ok t = true -> tsources_ok S = true ->
+  run_dir_par q recursive abs rel t (render_sources S) = spec_dir recursive rel t S.
+Proof. exact run_dir_par_exact. Qed.
+Print Assumptions C14_parallel_dir_run_exact.
+
+Theorem C14_parallel_equals_sequential : forall q recursive abs rel t s,
+  run_dir_par q recursive abs rel t s = run_dir q recursive abs rel t s.
+Proof. exact run_dir_par_eq. Qed.
+Print Assumptions C14_parallel_equals_sequential.
+
 (* 3. Files named explicitly go through the same gates. *)
 Theorem C14_named_files_exact : forall q abs S ps,
   flags_off q -> tsources_ok S = true -> forallb path_ok ps = true ->
